@@ -122,6 +122,12 @@ class Contract(object):
         self.traces_.append((name, fn))
         return self
 
+    def allow_external(self):
+        """External (third-party) calls inside this function are modelled as uninterpreted
+        results that may raise any Exception (each listed as an assumption)."""
+        self.allow_external_ = True
+        return self
+
     def native_check(self, fn):
         """fn(pre_inputs, post_inputs, raised) -> True | message.  Extra check used only by
         the replay harness for obligations whose witness is not an execution (invariants)."""
